@@ -267,3 +267,70 @@ _c19_obl3 = obligations
 def obligations():
     from props import selftest_ob
     return _c19_obl3() + selftest_ob.mangle_obligations('O19.0')
+
+# ----------------------------------------------------------------------------- O19.6 a struct field has ONE Go name: declaration, literal and every read agree
+def ob_field_names(r, tier, seed):
+    import os, subprocess, tempfile, shutil, re as _re
+    from mirsym.engine import PyMap, Agg, PyVec, Ref, mkstr
+    W = e2.fresh_world(CRATES); tt = W.tt
+    TY = tt.find_adt(['tast', 'Ty'], 'compiler'); SD = tt.find_adt(['env', 'StructDef'], 'compiler'); TI = tt.find_adt(['tast', 'TastIdent'], 'compiler')
+    CE = tt.find_adt(['anf', 'CExpr'], 'compiler'); IE = tt.find_adt(['anf', 'ImmExpr'], 'compiler'); GE = tt.find_adt(['goast', 'Expr'], 'compiler')
+    CO = tt.find_adt(['common', 'Constructor'], 'compiler'); SC = tt.find_adt(['common', 'StructConstructor'], 'compiler'); GOENV = tt.find_adt(['go', 'compile', 'GlobalGoEnv'], 'compiler')
+    GI = tt.find_adt(['goast', 'Item'], 'compiler'); GST = [a for a in tt.by_name['Struct'] if a.crate == 'compiler' and 'goast' in '::'.join(a.path)][0]; GF = [a for a in tt.by_name['Field'] if a.crate == 'compiler' and 'goast' in '::'.join(a.path)][0]
+    fields = ['x', 'range', 'type', 'default', 'map', 'func', 'go', 'len']
+    r.bounds = 'a struct P with one int32 field named each of %s; the field read (compile_cexpr on EConstrGet), the struct literal (compile_cexpr on EConstr) and the declaration (gen_type_definition)' % fields
+    r.assumptions = ['empty environments except the struct P', 'oracle: the three Go names of the field are equal, and equal go_ident(field) (whose legality is O19.1)']
+    def ident(n): return Agg(TI.key, 0, [mkstr(n)])
+    def entry(ex):
+        fname = ex.choose([(True, f) for f in fields]); i32 = Agg(TY.key, TY.vindex('TInt32'), []); pty = Agg(TY.key, TY.vindex('TStruct'), [mkstr('P')])
+        genv = ex.call('env::GlobalTypeEnv::new_empty', []); genv2 = ex.call('env::GlobalTypeEnv::new_empty', [])
+        monoenv = ex.call('mono::GlobalMonoEnv::from_genv', [genv2]); hm = {0: monoenv}
+        ex.call('mono::GlobalMonoEnv::insert_struct', [Ref(hm, 0), Agg(SD.key, 0, [ident('P'), PyVec([]), PyVec([Agg('tuple', 0, [ident(fname), i32])])])])
+        liftenv = ex.call('lift::GlobalLiftEnv::from_monoenv', [hm[0]])
+        h = {0: Agg(GOENV.key, 0, [genv, liftenv])}
+        con = Agg(CO.key, CO.vindex('Struct'), [Agg(SC.key, 0, [ident('P')])])
+        s_ = Agg(IE.key, IE.vindex('ImmVar'), [mkstr('s'), pty]); v_ = Agg(IE.key, IE.vindex('ImmVar'), [mkstr('v'), i32])
+        C = lambda n, **kw: Agg(CE.key, CE.vindex(n), [kw[fl[0]] for fl in CE.variants[CE.vindex(n)].fields])
+        rd = ex.call('go::compile::compile_cexpr', [Ref(h, 0), Ref({0: C('EConstrGet', expr=ms.mkbox(s_), constructor=con, field_index=0, ty=i32)}, 0)])
+        lit = ex.call('go::compile::compile_cexpr', [Ref(h, 0), Ref({0: C('EConstr', constructor=con, args=PyVec([v_]), ty=pty)}, 0)])
+        items = ex.call('go::compile::gen_type_definition', [Ref(h, 0)])
+        gi = lambda v, adt, n: dict(zip([x[0] for x in adt.variants[v.idx].fields], v.fields))[n]
+        read_name = ms.pystr(gi(rd, GE, 'field')) if GE.variants[rd.idx].name == 'FieldAccess' else '<%s>' % GE.variants[rd.idx].name
+        lit_name = ms.pystr(gi(lit, GE, 'fields').items[0].fields[0]) if GE.variants[lit.idx].name == 'StructLiteral' else '<%s>' % GE.variants[lit.idx].name
+        decl = None
+        for it in items.items:
+            if GI.variants[it.idx].name == 'Struct':
+                st = it.fields[0]; sf = dict(zip([x[0] for x in GST.variants[0].fields], st.fields))
+                if ms.pystr(sf['name']) == 'P': decl = ms.pystr(dict(zip([x[0] for x in GF.variants[0].fields], sf['fields'].items[0].fields))['name'])
+        hh = {0: mkstr(fname)}
+        gid = ms.pystr(ex.call('go::mangle::go_ident', [Ref(hh, 0)]))
+        return fname, read_name, lit_name, decl, gid
+    res = e2.explore(r, W, entry, [])
+    bad = []
+    for p in res:
+        r.cases += 1
+        if p.kind != 'ok': raise Unsupported('field name path panicked: %s' % p.value)
+        fname, rd, lit, decl, gid = p.value
+        r.nontrivial += 1
+        if not (rd == lit == decl == gid): bad.append(p.value)
+        elif len(r.samples) < 3: r.samples.append({'field': fname, 'go_name': gid})
+    if bad:
+        # replay with a field name that goml itself lexes as an identifier (`go`, `type` are goml keywords too)
+        import json as _j
+        rc, out, errt = build.run_driver('vreplay', '\n'.join(_j.dumps({'fn': 'lex', 'args': [b[0]]}) for b in bad) + '\n')
+        lexable = [b for b, l in zip(bad, out.splitlines()) if [t[0] for t in _j.loads(l)['ok']] == ['Ident']]
+        fname, rd, lit, decl, gid = (lexable or bad)[0]
+        src = 'struct P { %s: int32 }\nfn get(s: P) -> int32 { s.%s }\nfn main() -> unit { string_println(int32_to_string(get(P { %s: 1 }))) }\n' % (fname, fname, fname)
+        d = tempfile.mkdtemp(prefix='vf-c19-')
+        try:
+            open(os.path.join(d, 'main.gom'), 'w').write(src)
+            out = subprocess.run([build.compiler_bin(), 'run', '--dump-go', os.path.join(d, 'main.gom')], capture_output=True, text=True, timeout=60).stdout
+        finally: shutil.rmtree(d, ignore_errors=True)
+        m_ = _re.search(r'= s__\d+\.(\w+)', out); dm = _re.search(r'type P struct \{\s*(\w+) ', out)
+        ok_ = bool(m_ and dm and m_.group(1) != dm.group(1))
+        r.findings.append(Finding('field-name-disagrees', 'field `%s` of struct P: declared as `%s`, initialised as `%s`, read as `%s` (go_ident gives `%s`); %d of %d field names affected' % (fname, decl, lit, rd, gid, len(bad), len(fields)), {'field': fname, 'all': [b[0] for b in bad]}, ok_,
+                                  'goml `%s` declares `%s` and reads `.%s`' % (src.replace('\n', ' | '), dm.group(1) if dm else '?', m_.group(1) if m_ else '?')))
+
+_c19_obl4 = obligations
+def obligations():
+    return _c19_obl4() + [Ob('O19.6-struct-field-names', 'declaration, literal and read of a struct field use one Go name', ob_field_names, ('quick', 'thorough'), 2, {})]
